@@ -650,10 +650,8 @@ func commitPrograms() []Prog {
 	S := func(op string, args ...Arg) Step { return Step{Op: op, Args: args} }
 	add := func(name, tier string, inPub []bool, steps []Step) {
 		var outs []OutRef
-		for i, st := range steps {
-			if st.Op == "commit" {
-				outs = append(outs, OutRef{i, 0})
-			}
+		for i := range steps {
+			outs = append(outs, OutRef{i, 0})
 		}
 		out = append(out, Prog{Name: "commit." + name, Suite: "commit", Tier: tier, InPublic: inPub, Steps: steps, Outs: outs})
 	}
@@ -666,6 +664,11 @@ func commitPrograms() []Prog {
 	add("two_chained", "quick", f2, []Step{S("commit", in(0)), S("commit", sref(0, 0), in(1))})
 	add("two_product", "quick", f2, []Step{S("mul", in(0), in(1)), S("commit", sref(0, 0)), S("commit", sref(0, 0), in(1))})
 	add("three", "quick", f3, []Step{S("commit", in(0)), S("commit", in(1)), S("commit", in(2), in(0))})
+	c := func(v int64) Arg { return Arg{Kind: "const", C: v} }
+	add("gate_then_commit", "quick", f2, []Step{S("mul", in(0), in(1)), S("commit", in(0))})
+	add("gate_then_commit_const", "quick", f2, []Step{S("mul", in(0), in(1)), S("commit", c(1), in(0))})
+	add("gate_then_commit_consts", "quick", f2, []Step{S("mul", in(0), in(1)), S("add", in(0), in(1)), S("commit", c(5), in(1), c(0))})
+	add("two_gates_two_commits_const", "quick", f3, []Step{S("mul", in(0), in(1)), S("commit", in(2), c(1)), S("mul", in(1), in(2)), S("commit", c(2), c(3), in(0))})
 	add("three_chained", "thorough", f3, []Step{S("commit", in(0)), S("commit", sref(0, 0), in(1)), S("commit", sref(1, 0), sref(0, 0), in(2))})
 	add("two_only_public", "thorough", []bool{true, true}, []Step{S("commit", in(0)), S("commit", in(1))})
 	return out
